@@ -116,25 +116,62 @@ func c18r1(w *World, rr *RuleRun) {
 			}
 		}
 	}
-	// three-way adaptors
-	for _, name := range []string{"(containers.closerThanTarget).Compare", "(k-nearest-nodes.lessComparer[K]).Compare"} {
-		fn := w.P.FuncOpt(name)
-		if fn == nil {
-			// generic: find an instance or the origin by suffix
-			for _, f := range w.P.LibFuncs {
-				if strings.HasPrefix(shortFuncName(f), "(k-nearest-nodes.lessComparer[") && strings.Contains(shortFuncName(f), "]).Compare") && f.Parent() == nil {
-					fn = f
-					break
-				}
-			}
-		}
-		if fn == nil {
-			rr.Broken("adaptor %s not found", name)
-			continue
-		}
+	// three-way adaptors: whatever concrete comparer is handed to the sorted containers
+	ads := w.sortedMapComparers()
+	if len(ads) < 2 {
+		rr.Broken("three-way adaptors handed to immutable.NewSortedMap: found %d, expected at least 2", len(ads))
+	}
+	for _, fn := range ads {
 		w.checkAdaptor(rr, fn)
 	}
 	w.checkInt160Cmp(rr)
+}
+
+// sortedMapComparers: the Compare methods of the concrete types converted to immutable.Comparer at
+// NewSortedMap call sites in the library (found by call and type, not by name).
+func (w *World) sortedMapComparers() []*ssa.Function {
+	var out []*ssa.Function
+	seen := map[*ssa.Function]bool{}
+	for _, f := range w.P.LibFuncs {
+		for _, b := range f.Blocks {
+			for _, ins := range b.Instrs {
+				c, ok := ins.(*ssa.Call)
+				if !ok {
+					continue
+				}
+				cal := c.Call.StaticCallee()
+				if cal == nil || cal.Pkg == nil && cal.Origin() == nil {
+					continue
+				}
+				o := cal
+				if o.Origin() != nil {
+					o = o.Origin()
+				}
+				if o.Name() != "NewSortedMap" || o.Pkg == nil || !strings.HasSuffix(o.Pkg.Pkg.Path(), "benbjohnson/immutable") || len(c.Call.Args) == 0 {
+					continue
+				}
+				mi, ok := c.Call.Args[0].(*ssa.MakeInterface)
+				if !ok {
+					broken(fmt.Sprintf("%s: comparer handed to NewSortedMap is not a concrete value", shortFuncName(f)))
+				}
+				ms := w.P.SSA.MethodSets.MethodSet(mi.X.Type())
+				var fn *ssa.Function
+				for i := 0; i < ms.Len(); i++ {
+					if ms.At(i).Obj().Name() == "Compare" {
+						fn = w.P.SSA.MethodValue(ms.At(i))
+					}
+				}
+				if fn == nil || len(fn.Blocks) == 0 {
+					broken(fmt.Sprintf("%s: comparer type %s has no analysable Compare", shortFuncName(f), mi.X.Type()))
+				}
+				if !seen[fn] {
+					seen[fn] = true
+					out = append(out, fn)
+				}
+			}
+		}
+	}
+	return out
 }
 
 // checkAdaptor: Compare(l, r) returns -1 under less(l,r), +1 under ¬less(l,r) ∧ less(r,l), 0 under both false.
